@@ -39,6 +39,7 @@ macro_rules! dispatch_property {
             "C01" | "C02" | "C03" | "C04" | "C05" | "C08" | "C09" | "C10" | "C11" | "C12" | "C13" | "C17" => $f(&engines::chaingen::ChainSim, $($arg),*),
             "C14" | "C15" | "C16" => $f(&engines::stakesim::StakeSim, $($arg),*),
             "C20" => $f(&engines::buildsim::BuildSim, $($arg),*),
+            "C19" => $f(&engines::twin::TwinSim, $($arg),*),
             "C06" => $f(&engines::kv06::Kv06, $($arg),*),
             "C07" => $f(&engines::pfx07::Pfx07, $($arg),*),
             _ => {
@@ -55,6 +56,7 @@ macro_rules! dispatch_engine {
             "chainsim" => $f(&engines::chaingen::ChainSim, $($arg),*),
             "stakesim" => $f(&engines::stakesim::StakeSim, $($arg),*),
             "buildsim" => $f(&engines::buildsim::BuildSim, $($arg),*),
+            "twinsim" => $f(&engines::twin::TwinSim, $($arg),*),
             "kvsim-overlay" => $f(&engines::kv06::Kv06, $($arg),*),
             "kvsim-prefix" => $f(&engines::pfx07::Pfx07, $($arg),*),
             _ => {
@@ -108,6 +110,7 @@ fn main() {
             });
             dispatch_engine!(rf.engine.as_str(), do_replay, &rf, &path)
         }
+        "twin-child" => engines::twin::child_main(args.get(2).map(|s| s.as_str()).unwrap_or("")),
         "determinism" => {
             let property = arg_value(&args, "--property").unwrap_or_else(|| usage());
             let n = arg_value(&args, "--n").and_then(|s| s.parse().ok()).unwrap_or(2000);
